@@ -52,6 +52,21 @@ def _safe(ctx, sig, case, what, fn):
     return False, None
 
 
+def _with_max_point(r, pts, ddesc):
+    """The same recurrence with max_point set inside the series (after the 3rd member, before the 4th)."""
+    if len(pts) < 4:
+        return None
+    half = impl.Duration(seconds=1)
+    kw = {"repetitions": r.repetitions, "duration": r.duration, "max_point": pts[2] + half}
+    if r.format_number == 4 and r.repetitions is None:
+        return None
+    if r.format_number == 4:
+        kw["end_point"] = r.end_point
+    else:
+        kw["start_point"] = r.start_point
+    return impl.TimeRecurrence(**kw)
+
+
 def check_rec(ctx, kind, c, desc):
     fmt, n, ddesc = desc["fmt"], desc["n"], desc["dur"]
     nominal, zero = recur.is_nominal(ddesc), recur.is_zero(ddesc)
@@ -63,6 +78,16 @@ def check_rec(ctx, kind, c, desc):
         n_eff = 1 if single else n
         impl._H.ticks = 0
         pts = recur.take(r, (n_eff + 5) if n_eff is not None else KMEM)
+        if desc.get("max_point"):
+            # the optional max_point bound: the series is what iteration yields with it (a bounded, complete set)
+            r = _with_max_point(r, pts, ddesc)
+            if r is None:
+                return
+            pts = recur.take(r, KMEM)
+            n_eff = len(pts)
+            n = n_eff
+            fmt = 3 if fmt == 1 else fmt
+            base_sig = dict(base_sig, max_point=True)
     except BaseException:
         ctx.count("recurrences_not_buildable_or_iterable(C12's business)")
         return
@@ -242,6 +267,8 @@ def run_unit(unit, ctx):
                 desc = {"fmt": fmt, "n": n, "anchor": anchor, "dur": d, "via": "ctor"}
                 ctx.sample(desc)
                 check_rec(ctx, kind, c, desc)
+                if n in (None, 7) and fmt in (3, 4) and not recur.is_zero(d):
+                    check_rec(ctx, kind, c, dict(desc, max_point=True))
 
 
 def replay_case(case, ctx):
